@@ -43,14 +43,15 @@ UpdateActs(S, dup) == UNION { With(Base(c, "Update"), "p",
 FreezeActs(S) == IF FREEZE THEN UNION { Base(c, "Freeze") : c \in Chains } ELSE {}
 
 TimeoutHeights(S, c) == {0} \cup { S.ch[Cp(c)].h + d : d \in TOH_OFFS }
-TimeoutTicks(S)      == {0} \cup { S.now + d : d \in TOT_OFFS }
-TimeoutSecs(S)       == { (S.now \div 2) + d : d \in TOS_OFFS }
+\* timeouts are chosen relative to the DESTINATION's clock
+TimeoutTicks(S, c)   == {0} \cup { S.now + Skew(Cp(c)) + d : d \in TOT_OFFS }
+TimeoutSecs(S, c)    == { ((S.now + Skew(Cp(c))) \div 2) + d : d \in TOS_OFFS }
 
 SendActs(S) == UNION { IF S.ch[c].cur.ns > MaxSeq THEN {} ELSE
-      (IF V1 THEN With(With(With(Base(c, "SendV1"), "toH", TimeoutHeights(S, c)), "toT", TimeoutTicks(S)),
+      (IF V1 THEN With(With(With(Base(c, "SendV1"), "toH", TimeoutHeights(S, c)), "toT", TimeoutTicks(S, c)),
                        "data", { <<d>> : d \in DATA }) ELSE {})
       \cup
-      (IF V2 THEN With(With(Base(c, "SendV2"), "toT", TimeoutSecs(S)), "data",
+      (IF V2 THEN With(With(Base(c, "SendV2"), "toT", TimeoutSecs(S, c)), "data",
                        { <<d>> : d \in DATA } \cup (IF "fail" \in DATA THEN { <<"ok","fail">>, <<"ok","ok">> } ELSE {})
                        \cup (IF "fail2" \in DATA THEN { <<"ok2","fail1">>, <<"ok1","ok2">>, <<"fail2","ok1">>, <<"ok1","async">>,
                                                          <<"ok1","ok","fail2">>, <<"ok2","ok1","ok">> } ELSE {}))
@@ -124,10 +125,13 @@ BadWriteAckActs(S) == UNION { UNION {          \* async acks for packets that ar
 
 \* sends that must be rejected: elapsed / missing / too distant timeouts
 BadSendActs(S) == UNION {
-      (IF V1 THEN With(With(With(Base(c, "SendV1"), "toH", {0, S.ch[Cp(c)].h, 1}), "toT", {0, S.now, 1}),
+      (IF V1 THEN With(With(With(Base(c, "SendV1"), "toH", {0, 1, S.ch[Cp(c)].h, S.ch[Cp(c)].h + 5}),
+                            "toT", {0, 1, S.now, S.now + Skew(c), CpTime(S, c, Latest(S, c)), CpTime(S, c, Latest(S, c)) + 1, S.now + 30}),
                        "data", { <<"ok">> }) ELSE {})
-      \cup (IF V2 THEN With(With(Base(c, "SendV2"), "toT", {0, S.now \div 2, (S.now \div 2) + 1, (S.now \div 2) + 86400, (S.now \div 2) + 86401}),
-                            "data", { <<"ok">>, <<>> }) ELSE {})
+      \cup (IF V2 THEN With(With(With(Base(c, "SendV2"),
+                            "toT", {0, S.now \div 2, (S.now \div 2) + 1, ((S.now + Skew(c)) \div 2) + 1, ((S.now + Skew(c)) \div 2) + 2, CpTime(S, c, Latest(S, c)) \div 2, (CpTime(S, c, Latest(S, c)) \div 2) + 1,
+                                    (S.now \div 2) + 86400, (S.now \div 2) + 86401}),
+                            "data", { <<"ok">>, <<>> }), "direct", {TRUE, FALSE}) ELSE {})
     : c \in Chains }
 
 Adversarial(S) ==
